@@ -1,3 +1,3 @@
 import CobaVerif.Driver.Loop
--- stub: replaced when the C09 model exists
-def main : IO Unit := Coba.J.runLoop (fun _ => .error "C09 driver not implemented")
+import CobaVerif.Driver.C09
+def main : IO Unit := Coba.J.runLoop Coba.C09.Driver.handle
